@@ -163,7 +163,7 @@ def run(ctx: Ctx):
         st.hit("op", "decode")
         st.hit("outcome", "decode-" + ("err-" + got["err"] if "err" in got else ("wellformed" if wf else "truncating")))
 
-    model = run_model_parallel(lines)
+    model = run_model_parallel("C07", lines)
     for ln, m, i in zip(lines, model, impl):
         st.traces_validated += 1
         if m != i:
